@@ -60,7 +60,7 @@ def scenarios(tier, seed):
                 # soft evidence on one variable twice with different likelihoods, and MAP under it, on one engine
                 if engine != "ci" and (tier != "quick" or set(card.values()) == {2}):
                     for seq in (["virtual", "virtual_alt", "query"], ["virtual_alt", "virtual", "map_virtual"], ["map_virtual", "map_virtual_alt", "virtual"],
-                                ["virtual_evidence", "virtual_alt", "map"]):
+                                ["virtual_evidence", "virtual_alt", "map"], ["virtual", "map_all"], ["map_virtual", "map_all"]):
                         k += 1
                         d = dict(family=f"seq/{engine}", mode="seq", engine=engine, shape=sname, nodes=nodes, parents=parents, card=card, seq=seq,
                                  states=C.STATE_STYLES[k % len(C.STATE_STYLES)], names="str", hashseed=k % nh, budget_s=40,
@@ -253,6 +253,16 @@ def run_seq(desc, M):
                 best = C.marginal(desc, J, star)
                 for a in C.assignments(desc, [q0]):
                     M.le(C.marginal(desc, J, a), best, f"{tag}: MAP under soft evidence is a maximiser after earlier questions")
+        elif qn == "map_all":
+            # MAP over ALL variables (no variable list): the answer must be that of a fresh engine - exactly the model's variables, a maximiser
+            # of the joint (an earlier soft-evidence question must not linger in it)
+            if len(nodes) > 3:
+                continue
+            res = eng.map_query(show_progress=False)
+            if M.check(set(res.keys()) == {nm[v] for v in nodes}, f"{tag}: MAP over all variables assigns exactly the model's variables", detail=str(sorted(map(str, res.keys())))):
+                star = tuple(C.expected_state_names(desc, v).index(res[nm[v]]) for v in nodes)
+                for st, val in jt.items():
+                    M.le(val, jt[star], f"{tag}: MAP over all variables is a maximiser of the joint after earlier questions")
         elif qn in ("map", "map_evidence"):
             qv = [q0] if not ev or q0 != evnode else [q1]
             res = eng.map_query([nm[v] for v in qv], evidence=evidence, show_progress=False)
